@@ -100,6 +100,9 @@ Step ==
             /\ UNCHANGED <<dTerm, dVote, dLast, dLog, lastApplied, appliedAt, submitted, acked>>
        [] t.ev = "snapshot" ->
             /\ viol' = viol \cup (IF t.err = "" THEN SnapConfViol(t) ELSE {})
+                            \* a local snapshot that was really taken (the stored index moved) is labelled with the index
+                            \* its contents reflect: the last entry this node applied (RaftHost!SnapshotExact)
+                            \cup (IF t.err = "" /\ t.snapidx # t.prev /\ t.snapidx # lastApplied[t.node] THEN {<<l, "SnapshotLabel">>} ELSE {})
             /\ UNCHANGED <<dTerm, dVote, dLast, dLog, lastApplied, appliedAt, submitted, acked>>
        [] t.ev = "snapinstalled" ->
             /\ lastApplied' = [lastApplied EXCEPT ![t.node] = IF t.idx > @ THEN t.idx ELSE @]
